@@ -405,6 +405,16 @@ func (a *acc) checkScriptValue(in caseIn, s *spec, stage string, obj object.Obje
 	return true
 }
 
+// refusedSelfReference: a struct that refers to itself through a pointer or a slice is a nested struct like any other
+// (the bridge registers the struct type before it looks at the fields); that it is refused as "recursive" when the
+// conversion happens to start at one of its pointer or container types, and accepted when it starts elsewhere, is
+// not "rejected with an error" but an answer that depends on where in the type the first conversion began.
+func (a *acc) refusedSelfReference(in caseIn, s *spec, stage, kind, text string) {
+	if kind == "rejected" && s.leafOf().name == "RecNode" && strings.Contains(text, "recursive") {
+		a.fail(in, s, "rejected", stage, "self-referential-struct-refused", fmt.Sprintf("a value of type %s (a struct that refers to itself through a pointer and a slice) is refused as a recursive type", s.t), ev.Clip(text, 200), "the value converted")
+	}
+}
+
 // routeGlobal: WithGlobal -> script returns it -> Interface(); then the typed path back.
 func (a *acc) routeGlobal(s *spec, nv namedVal) {
 	in := caseIn{Route: "global", Type: s.path, Value: nv.name}
@@ -416,6 +426,7 @@ func (a *acc) routeGlobal(s *spec, nv namedVal) {
 	o := eval("x", map[string]any{"x": iv})
 	if kind, text := o.failure(); kind != "" {
 		a.out("global", kind, s)
+		a.refusedSelfReference(in, s, "global", kind, text)
 		if kind != "rejected" {
 			a.fail(in, s, kind, "global", panicClass(text), fmt.Sprintf("risor.Eval(\"x\", WithGlobal(\"x\", %s)) panicked", showV(nv.v)), text, "a value or an error")
 		}
@@ -471,6 +482,7 @@ func (a *acc) routeFieldRead(s *spec, nv namedVal) bool {
 	o := eval("s.F", map[string]any{"s": h.Interface()})
 	if kind, text := o.failure(); kind != "" {
 		a.out("field-read", kind, s)
+		a.refusedSelfReference(in, s, "field-read", kind, text)
 		if kind != "rejected" {
 			a.fail(in, s, kind, "field-read", panicClass(text), fmt.Sprintf("`s.F` with s = &struct{F %s}{%s} panicked", s.t, showV(nv.v)), text, "a value or an error")
 		}
@@ -866,6 +878,10 @@ func units(thorough bool) []unit {
 }
 
 func (a *acc) runUnit(u unit, only caseIn) {
+	// every unit is the first use of its types in the process: what an earlier unit left in the package-level
+	// type registries must not decide how this one fares (a self-referential type converted alone is refused or
+	// not depending on where the conversion starts)
+	object.VerifResetTypeCaches()
 	want := func(route, source string) bool {
 		if only.Route == "" || only.Route == "all" {
 			return true
